@@ -768,6 +768,17 @@ def note_list_mutation(I, lst):
 
 def setitem(I, obj, idx, value):
     obj = I.resolve_opt(obj)
+    from .sym import SDict
+    if isinstance(obj, SDict):
+        # d[k] = v on a dictionary of unknown content: entries learnt for other keys may alias k
+        # (symbolic keys), so they are forgotten; the entry for k itself is now known
+        from .builtins_model import key_identity
+        kid, key = key_identity(I, idx)
+        obj.memo.clear()
+        obj.keys_.clear()
+        obj.memo[kid] = SOpt(z3.BoolVal(False), value)
+        obj.keys_[kid] = key
+        return
     if isinstance(obj, dict):
         obj[I.hashable(idx)] = value
         return
